@@ -56,12 +56,27 @@ def strip_comments(src):
     return ''.join(out)
 
 
+def _wip_patterns():
+    """coq/.wip_exclude: one glob per line (relative to coq/) of files that are work in progress of a proof worker and
+    are not part of the project yet (not built, not audited, not an obligation of any check); normally empty"""
+    p = os.path.join(COQDIR, '.wip_exclude')
+    if not os.path.exists(p):
+        return []
+    return [l.strip() for l in open(p) if l.strip() and not l.startswith('#')]
+
+
 def v_files():
+    import fnmatch
+    pats = _wip_patterns()
     res = []
     for root, _, files in os.walk(COQDIR):
         for f in files:
             if f.endswith('.v'):
-                res.append(os.path.join(root, f))
+                path = os.path.join(root, f)
+                rel = os.path.relpath(path, COQDIR)
+                if any(fnmatch.fnmatch(rel, pat) for pat in pats):
+                    continue
+                res.append(path)
     return sorted(res)
 
 
